@@ -187,3 +187,62 @@ func verifH_C13_sticky_identity() {
 	c2, kerr2 := h.installStickyOnRequestNoCtx(r2, i1)
 	verifAssert(kerr2 != nil && c2.entry == nil, "a (re-versioned) cursor is never accepted as a sticky token")
 }
+
+// The teardown route binds to the caller's identity like every other route: a
+// session can be deleted only by the identity that opened it.
+//
+//verif:stub time.Now = verifFixedNow
+//verif:stub crypto/rand.Read = verifRandRead
+//verif:stub github.com/Query-farm/vgi-rpc-go/vgirpc.sealSessionToken = verifSealSessionToken
+//verif:stub github.com/Query-farm/vgi-rpc-go/vgirpc.openSessionToken = verifOpenSessionToken
+//verif:stub (*github.com/Query-farm/vgi-rpc-go/vgirpc.sessionRegistry).ensureReaper = verifNoReaper
+//verif:bound identities as in aad_injective; one session opened by I1, then DELETE {prefix}/__session__ bearing I1's token with the authenticator resolving the caller to I2 (or failing, which the route treats as anonymous); ideal token algebra
+func verifH_C13_sticky_delete() {
+	i1 := verifC13Auth("a")
+	i2 := verifC13Auth("b")
+	verifToks = nil
+	verifRandCtr = 0
+	h := &HttpServer{tokenKey: []byte("0123456789abcdef0123456789abcdef"), tokenTTL: time.Hour, server: &Server{serverID: "w1"}, stickyRegistry: newSessionRegistry(0)}
+	sink := &stickySink{registry: h.stickyRegistry, tokenKey: h.tokenKey, serverID: "w1", auth: i1, acceptOpens: true, transport: TransportKindHTTP}
+	st := &verifC13State{N: 1}
+	verifAssert((&CallContext{stickySink: sink}).OpenSession(st, 0) == nil && sink.mintedToken != "", "open")
+	authFails := verifNondetBool("authenticator_fails")
+	h.authenticateFunc = func(r *http.Request) (*AuthContext, error) {
+		if authFails {
+			return nil, &RpcError{Type: "ValueError", Message: "bad credentials"}
+		}
+		return i2, nil
+	}
+	presenter := i2
+	if authFails {
+		presenter = nil // treated as the anonymous caller
+	}
+	r := &http.Request{Method: "DELETE", Header: http.Header{}}
+	r.Header.Set(stickySessionHeader, sink.mintedToken)
+	rw := &verifC13RW{hdr: http.Header{}}
+	h.handleStickyDelete(rw, r)
+	verifReach("delete-answered")
+	same := verifC13Same(i1, presenter)
+	// is the session still there for its owner?
+	r2 := &http.Request{Header: http.Header{}}
+	r2.Header.Set(stickySessionHeader, sink.mintedToken)
+	c, err := h.installStickyOnRequestNoCtx(r2, i1)
+	alive := err == nil && c.entry != nil
+	c.ReleaseLock()
+	verifAssert(alive == !same, "a session is torn down exactly when the identity that opened it asks — any other identity's DELETE leaves it alone")
+	verifAssert((rw.status == 204) == same, "and only the owner is told it was closed")
+	if same {
+		verifReach("owner-deleted")
+	} else {
+		verifReach("stranger-refused")
+	}
+}
+
+type verifC13RW struct {
+	hdr    http.Header
+	status int
+}
+
+func (w *verifC13RW) Header() http.Header         { return w.hdr }
+func (w *verifC13RW) WriteHeader(code int)        { w.status = code }
+func (w *verifC13RW) Write(b []byte) (int, error) { return len(b), nil }
